@@ -37,6 +37,17 @@ THEOREMS = [
     "BeyondVerif.C03.changeScale_eq_hash",
     "BeyondVerif.C03.eop_policy_spec",
     "BeyondVerif.C03.eop_lookup_day",
+    "BeyondVerif.C03.tai_utc_lookup_spec",
+    "BeyondVerif.C03.tai_utc_at_entry",
+    "BeyondVerif.C03.tai_utc_between",
+    "BeyondVerif.C03.tai_utc_after_last",
+    "BeyondVerif.C03.tai_utc_before_first",
+    "BeyondVerif.C03.last_next_spec",
+    "BeyondVerif.C03.tai_utc_of_day",
+    "BeyondVerif.C03.eop_record_of_day",
+    "BeyondVerif.C03.eop_record_spec",
+    "BeyondVerif.C03.leap_table_lookup",
+    "BeyondVerif.C03.leap_table_is_parsed_file",
     "BeyondVerif.C03.add_clock",
     "BeyondVerif.C03.add_sub",
     "BeyondVerif.C03.add_sub_const_scales",
@@ -62,16 +73,21 @@ LEVEL_TEXT = ("Lean theorems over an exact integer model (ticks of 1e-7 s) of Da
               "whole-microsecond reading) with UT1 when both dates carry the same record; the record of a date is the one tabulated for its UTC reading (second lookup of fix fc514f7); "
               "d+t moves the clock reading by exactly t in every scale, (d+t)-d=t and associativity in TAI/TT/GPS unconditionally; comparisons/hash are those of the "
               "microsecond-exact `_datetime`, agree with `-` and are functions of the instant; DateRange iteration is the arithmetic progression of length len, all members `in` the range, for both step signs (induction); "
-              "|TDB-TT| < 1.7 ms over R for the formula translated from the AST. Exact differential correspondence of the compiled model with the real classes.")
+              "|TDB-TT| < 1.7 ms over R for the formula translated from the AST. 'As tabulated for that day': for every table with ascending dates and every mjd the TAI-UTC lookup returns "
+              "the value of the entry with the greatest date <= mjd (exactly at an entry's date the entry itself, one tick earlier the one before, nothing before the first entry), the record is a "
+              "function of the day number and is exactly (finals[day], that entry) — tied to SimpleEopDatabase.tai_utc / finals / EopDb.get at every entry date of tai-utc.dat exactly and +-1 us, "
+              "and to the readers on the text of the files. Exact differential correspondence of the compiled model with the real classes.")
 LEVEL_NOTE = ("Python keeps seconds of day in a double: the integer model is tied on microsecond-exact inputs by exact correspondence (1-4 us slack only where UT1's 0.1-us column or "
               "the float TDB term enter, and where the double `mjd_utc` decides the day within 3 us of UTC midnight); 'same instant within 1 us' for UT1 is still false within one day's change of "
               "UT1-UTC of UTC midnight (open finding, kernel-checked witness) and is proved as 1.5 us under 'same EOP record'; DateRange is modelled on instants")
 TECHNIQUE = "Lean 4 proof (omega / induction / kernel decide on regenerated tables / real analysis for the TDB bound) + exact model-implementation correspondence"
 TRUSTED = [
     "harness/props/C03.py extract: Timescale method table and Date constants from the AST, TDB formula through harness/py2lean.py, IERS tables through an independent "
-    "fixed-column decimal parser (checked against the real readers for every day in the thorough tier, for a sample in the quick tier)",
+    "fixed-column decimal parser (checked on every run against the Lean column parsers of Model/EopFile.lean fed the text of the three files and against the real readers TaiUtc / Finals / "
+    "Finals2000A, every line; against EopDb.get for every day in the thorough tier, at every table abscissa and a sample of days in the quick tier)",
     "harness/extract_graphs.py: the scale graph in execution order (shared with C20)",
-    "correspondence: real Date / DateRange / Timescale.offset / EopDb.get vs the compiled Lean model through microsecond observables (_datetime, datetime, _offset, eop, d/s, -, comparisons, hash, len/iter/in)",
+    "correspondence: real Date / DateRange / Timescale.offset / EopDb.get / SimpleEopDatabase.tai_utc / .finals / TaiUtc / Finals / Finals2000A vs the compiled Lean model through microsecond observables "
+    "(_datetime, datetime, _offset, eop, d/s, -, comparisons, hash, len/iter/in, the readers' data)",
 ]
 ASSUMPTIONS = [
     "Model/Date.lean is hand-written exact integer arithmetic; the code computes in doubles. Tied by exact correspondence on microsecond-exact inputs in 1973-2017 "
@@ -87,7 +103,12 @@ NOT_COVERED = [
     "UT1/TDB round trip 'within 2 us' and 'UT1: within one day's change of UT1-UTC': oracle only",
     "x, y, lod, dx, dy, dpsi, deps columns of the EOP record (used by frames, not by time scales)",
     "the day number of `mjd_utc` is taken from a double (resolution 0.6 us): within that distance of UTC midnight the code may pick either neighbouring record; the model uses the exact day",
-    "leap-second windows (documented limitation of the library); Date.now, strptime, pickling",
+    "leap-second windows (documented limitation of the library) except the statements that are unambiguous there: a UTC date from 00:00:00.000000 of the day an entry of tai-utc.dat takes effect "
+    "carries the new TAI-UTC, up to 23:59:59.999999 of the eve the old one (oracle family leap-day:*); Date.now, strptime, pickling",
+    "Model/EopFile.lean reads plain decimal literals in fixed columns (what the IERS files contain); exponents, inf/nan, underscores, tabs — which Python's float()/split() also accept — are rejected by the model; "
+    "the dX/dY/LOD fall-back of the finals readers to the previous day is not modelled (not time-scale columns)",
+    "the linear term of the pre-1972 entries of tai-utc.dat, `(MJD - 37300.) X 0.001296 S`, is ignored by the reader (field 6 only) and so by the model: TAI-UTC before 1972 is the constant term (outside the "
+    "property's 1973-2017 anyway)",
 ]
 OPEN = [
     "changeScale_instant_bound_partial: the property's 1 us for UT1 is proved as 1.5 us (three separate timedelta roundings; 0.5 us from a whole-microsecond clock reading) under the hypothesis "
@@ -96,7 +117,10 @@ OPEN = [
 ]
 RULE = ("correspondence: per scale / ordered pair random clock readings 1973-2017 (one third within 75 s of midnight, 12 % around leap seconds), constructors incl. seconds outside [0,86400) "
         "and dates outside the tables under the three policies, change_scale on all 36 pairs, +/- timedelta, compare/hash/difference of close instants, Timescale.offset with random EOP values, "
-        "TDB formula, EopDb.get per day (every day in thorough), DateRange with both step signs / inclusive / incoherent / null; distinct = distinct request line. "
+        "TDB formula, EopDb.get per day (every day in thorough), DateRange with both step signs / inclusive / incoherent / null plus a deterministic grid of range boundaries (exact multiples, +-1 us, whole-day and "
+        "sub-second remainders, steps > 1 day); the lookups tai_utc / finals / EopDb.get AT the tables' abscissae in every tier: each of the 41 entries of tai-utc.dat exactly, +-1 us, +-1 s, +-12 h, the day before "
+        "the first entry, first/last day of the finals files and their neighbours, holes, 150-200 random day boundaries (all in thorough); Date constructors / change_scale / + at every leap-second day of the finals "
+        "range exactly at 00:00:00 UTC, +-1 us, +-1 s (UTC) and +-5 us, +-1 s (other scales), Date(int mjd); the readers on every line of the three files and on perturbed copies; distinct = distinct request line. "
         "oracle: the property's predicates on the real API with the IERS tables of tests/data/pole; tolerances 0 (uniform), 1 us (instant, UT1/TDB), 2 us (clock readings, UT1/TDB offsets)")
 SCALES = ["UT1", "GPS", "TDB", "UTC", "TAI", "TT"]
 UNIFORM = ("UTC", "TAI", "TT", "GPS")
@@ -176,6 +200,39 @@ def leap_at(day):
 
 def leap_days():
     return [m for m, _ in tables()[0] if m >= 41317]
+
+
+def table_abscissae(rng=None, all_days=False, n_days=150):
+    """tick numerators (mjd * D) AT the tables' own abscissae — the places where a lookup changes its answer:
+    every entry of tai-utc.dat exactly at 00:00:00, one microsecond (10 ticks) and one tick-of-the-double (1 tick is below the
+    resolution of a float mjd, so 10 ticks) before and after, half a day before/after; the first and last entry, the day
+    before the first entry; the first / last day of the finals files and their neighbours; the day boundaries of the
+    finals files (all of them when `all_days`, else a random sample plus every leap-second day).
+    Returned as a sorted list of distinct integers; whole days are `num % DAY_T == 0`."""
+    leap, ut1, first, last = tables()
+    days = {m for m, _ in leap}
+    days |= {leap[0][0] - 1, leap[0][0] + 1, leap[-1][0] + 1, leap[-1][0] + 400}
+    days |= {first - 1, first, first + 1, first + 2, last - 1, last, last + 1, last + 2}
+    holes = [d for d in range(first, last + 1) if d not in ut1]
+    days |= set(holes[:5]) | {d + 1 for d in holes[:5]}
+    if all_days:
+        days |= set(range(first - 2, last + 3))
+    elif rng is not None:
+        days |= {rng.randint(first, last) for _ in range(n_days)}
+    nums = set()
+    for d in days:
+        for off in (-DAY_T // 2, -10**7, -10, 0, 10, 10**7, DAY_T // 2):
+            nums.add(d * DAY_T + off)
+    return sorted(nums)
+
+
+def leap_before(day):
+    """the table entry in force on `day` as (entry mjd, ticks), None before the first entry"""
+    e = None
+    for mjd, val in tables()[0]:
+        if mjd <= day:
+            e = (mjd, val)
+    return e
 
 
 def setup(policy="pass"):
@@ -612,6 +669,194 @@ def check_tables(out, days):
         set_policy("pass")
 
 
+def lookup_position(num):
+    """where an abscissa lies relative to the tables (part of the family of a lookup failure)"""
+    day, tod = divmod(num, DAY_T)
+    entries = {m for m, _ in tables()[0]}
+    if tod == 0:
+        return "at-leap-entry" if day in entries else "at-day-start"
+    if tod <= 10**7:
+        return "after-leap-entry" if day in entries else "after-day-start"
+    if tod >= DAY_T - 10**7:
+        return "before-leap-entry" if day + 1 in entries else "before-day-end"
+    return "mid-day"
+
+
+_readers = {}
+
+
+def _taiutc_reader():
+    from beyond.dates.eop import TaiUtc
+    key = pole_dir()
+    if key not in _readers:
+        _readers[key] = TaiUtc(os.path.join(key, "tai-utc.dat"))
+    return _readers[key]
+
+
+def check_lookup(out, num):
+    """the real lookups at `mjd = num / D` (a double) against the IERS file columns read independently:
+    `SimpleEopDatabase.tai_utc` (and `TaiUtc.__getitem__`, `TaiUtc.get_last_next`) = the value of the last entry of
+    tai-utc.dat whose date is <= mjd (KeyError / None before the first), `SimpleEopDatabase.finals` = the record of day floor(mjd) (KeyError outside / in a hole),
+    `EopDb.get` = both, or the policy"""
+    from beyond.dates.eop import EopDb
+    from beyond.errors import EopError
+    leap, ut1, first, last = tables()
+    mjd = num / DAY_T
+    day = num // DAY_T
+    if math.floor(mjd) != day:
+        return    # the double cannot tell this abscissa from the neighbouring day
+    pos = lookup_position(num)
+    inp = {"lookup_num": num, "mjd": repr(mjd), "position": pos}
+    out.count(key=("lookup", num), kind="lookup", position=pos, covered=(day in ut1))
+    db = EopDb.db()
+    exp_t = leap_at(day)
+    try:
+        got = db.tai_utc(mjd)
+        got_t = round(got * 1e7)
+        if abs(got * 1e7 - got_t) > 1e-3:
+            got_t = got * 1e7
+    except KeyError:
+        got_t = None
+    if got_t != exp_t:
+        out.fail(f"eop-lookup:tai-utc:{pos}", "SimpleEopDatabase.tai_utc(mjd) is not the value of the last tai-utc.dat entry whose date is <= mjd", inp,
+                 observed=got_t, expected=exp_t)
+    reader = _taiutc_reader()
+    v = reader[mjd]
+    if (None if v is None else round(v * 1e7)) != exp_t:
+        out.fail(f"eop-lookup:taiutc-getitem:{pos}", "TaiUtc[mjd] is not the value of the last tai-utc.dat entry whose date is <= mjd", inp,
+                 observed=v, expected=exp_t)
+    past, fut = reader.get_last_next(mjd)
+    e_past = leap_before(day) or (None, None)
+    e_fut = next(((m, t) for m, t in leap if m > day), (None, None))
+    got_pf = tuple((e[0], None if e[1] is None else round(e[1] * 1e7)) for e in (past, fut))
+    if got_pf != (e_past, e_fut):
+        out.fail(f"eop-lookup:taiutc-last-next:{pos}", "TaiUtc.get_last_next(mjd) is not (last entry with date <= mjd, first entry with date > mjd)", inp,
+                 observed=got_pf, expected=(e_past, e_fut))
+    exp_u = ut1.get(day)
+    try:
+        rec = db.finals(mjd)
+        got_u, got_day = round(rec["ut1_utc"] * 1e7), rec["mjd"]
+    except KeyError:
+        got_u, got_day = None, None
+    if got_u != exp_u or (got_day is not None and got_day != day):
+        out.fail(f"eop-lookup:finals:{pos}", "SimpleEopDatabase.finals(mjd) is not the record of day floor(mjd)", inp,
+                 observed=(got_day, got_u), expected=(day, exp_u))
+    set_policy("error")
+    try:
+        e = EopDb.get(mjd)
+        got = (round(e.tai_utc * 1e7), round(e.ut1_utc * 1e7))
+    except (KeyError, EopError):
+        got = None
+    finally:
+        set_policy("pass")
+    exp = None if exp_t is None or exp_u is None else (exp_t, exp_u)
+    if got != exp:
+        out.fail(f"eop-lookup:get:{pos}", "EopDb.get(mjd) is not (TAI-UTC, UT1-UTC) as tabulated for day floor(mjd) / the policy for an uncovered date", inp,
+                 observed=got, expected=exp)
+
+
+LEAP_DAY_DELTAS = (0, 1, 10**6, 3600 * 10**6, -1, -10**6)
+
+
+def check_leap_day_date(out, day, delta):
+    """a UTC `Date` at 00:00:00 (+ delta us) of a day listed in tai-utc.dat: from 00:00:00.000000 on the new TAI-UTC
+    applies, up to 23:59:59.999999 of the eve the old one. Only statements that are unambiguous there: the record of the
+    UTC date itself, UTC -> TAI/TT/GPS, the same instant written down directly in TAI, and arithmetic after 00:00:00."""
+    from beyond.dates import Date, timedelta
+    us = day * DAY_US + delta
+    exp = leap_at(us // DAY_US)
+    pos = "at-leap-entry" if delta == 0 else "after-leap-entry" if delta > 0 else "before-leap-entry"
+    forms = [("datetime", lambda: mkdate(us, "UTC"))]
+    if delta == 0:
+        forms += [("int-mjd", lambda: Date(day)), ("day-seconds", lambda: Date(day, 0.0)), ("calendar", lambda: Date(*dt_of(us).timetuple()[:3]))]
+    for form, build in forms:
+        inp = {"leap_day": day, "delta_us": delta, "form": form, "clock": str(dt_of(us)) + " UTC"}
+        out.count(key=("leapdate", day, delta, form), kind="leap-day-date", position=pos, form=form)
+        a = build()
+        if round(a.eop.tai_utc * 1e7) != exp:
+            out.fail(f"leap-day:record:{pos}", "the EOP record of a UTC date does not carry the TAI-UTC tabulated for its day", inp,
+                     observed=a.eop.tai_utc, expected=exp / 1e7)
+        if td_us(a.datetime - dt_of(us)) != 0:
+            out.fail(f"leap-day:clock:{pos}", "the date does not show the clock reading it was built from", inp, observed=str(a.datetime))
+        for sb, const in (("TAI", 0), ("TT", 321840000), ("GPS", -190000000)):
+            b = a.change_scale(sb)
+            off = td_us(b.datetime - a.datetime)
+            if off * TICK != exp + const:
+                out.fail(f"leap-day:offset:{pos}", f"{sb}-UTC is not the tabulated TAI-UTC of that day (+ the constant)", dict(inp, to=sb),
+                         observed=f"{off} us", expected=f"{(exp + const) / TICK} us")
+            if not (a == b and hash(a) == hash(b) and td_us(b - a) == 0):
+                out.fail(f"leap-day:instant:{pos}", "converted date is not the same instant (==, hash, -)", dict(inp, to=sb),
+                         observed=(a == b, hash(a) == hash(b), td_us(b - a)))
+        ref = mkdate(us + exp // TICK, "TAI")
+        if not (a == ref and hash(a) == hash(ref) and td_us(a - ref) == 0):
+            out.fail(f"leap-day:same-instant-in-tai:{pos}", "the UTC date is not the instant UTC clock + tabulated TAI-UTC written down in TAI", inp,
+                     observed=(a == ref, td_us(a - ref)), expected=(True, 0))
+        if delta >= 0:
+            for t in (1, 5 * 3600 * 10**6, DAY_US - delta - 1):
+                e = a + timedelta(microseconds=t)
+                if td_us(e - a) != t or td_us(e.datetime - a.datetime) != t:
+                    out.fail(f"leap-day:add-sub:{pos}", "(d+t)-d != t in UTC although no leap second intervenes (both on the same day after 00:00:00)",
+                             dict(inp, t_us=t), observed=(td_us(e - a), td_us(e.datetime - a.datetime)), expected=t)
+
+
+def check_day_boundary_date(out, day, delta):
+    """a UTC `Date` at a day boundary of the finals files carries the record tabulated for its UTC day, and UT1-UTC
+    measured on the clocks is that column (to the microsecond resolution of a clock reading)"""
+    _, ut1, first, last = tables()
+    us = day * DAY_US + delta
+    d = us // DAY_US
+    if d not in ut1:
+        return
+    inp = {"boundary_day": day, "delta_us": delta, "clock": str(dt_of(us)) + " UTC"}
+    pos = "at-day-start" if delta == 0 else "after-day-start" if delta > 0 else "before-day-end"
+    out.count(key=("daydate", day, delta), kind="day-boundary-date", position=pos)
+    a = mkdate(us, "UTC")
+    if round(a.eop.ut1_utc * 1e7) != ut1[d] or round(a.eop.tai_utc * 1e7) != leap_at(d):
+        out.fail(f"day-boundary:record:{pos}", "the EOP record of a UTC date is not the one tabulated for its day", inp,
+                 observed=(a.eop.tai_utc, a.eop.ut1_utc), expected=(leap_at(d) / 1e7, ut1[d] / 1e7))
+
+
+def range_grid():
+    """(scale, start clock us, step us, duration us, inclusive, stop given as timedelta)"""
+    us = 57000 * DAY_US + 3600 * 10**6
+    n = 0
+    for scale in ("TAI", "UTC"):
+        for mag in (1, 300000, 10**6, 15 * 10**6, DAY_US, 2 * DAY_US, 3 * DAY_US + 1):
+            for sgn in (1, -1):
+                for k in (0, 1, 3):
+                    for r in (0, 1, -1, mag // 2, mag - 1, DAY_US, 250000):
+                        if not (0 <= r < mag) and r != -1:
+                            continue
+                        dur_abs = k * mag + r
+                        if dur_abs < 0:
+                            continue
+                        for inclusive in (True, False):
+                            n += 1
+                            yield scale, us, sgn * mag, sgn * dur_abs, inclusive, (n % 2 == 0)
+
+
+def check_range_grid(out):
+    """DateRange on its own boundaries: durations that are exact multiples of the step, one microsecond short / over,
+    whole-day and sub-second remainders, steps longer than a day, both signs, inclusive or not, stop as date or timedelta"""
+    for scale, us, step, dur, inclusive, stop_as_td in range_grid():
+        check_range(out, None, scale, us, replay=(step, dur, inclusive, stop_as_td))
+
+
+def check_boundaries(out, rng, big):
+    for num in reversed(table_abscissae(rng, all_days=big, n_days=150)):
+        check_lookup(out, num)
+    _, ut1, first, last = tables()
+    for day in leap_days():
+        if first + 1 <= day <= last - 1:
+            for delta in LEAP_DAY_DELTAS:
+                check_leap_day_date(out, day, delta)
+    days = range(first + 1, last) if big else sorted({rng.randint(first + 1, last - 1) for _ in range(120)} | {first + 1, last - 1, last})
+    for day in days:
+        for delta in (0, 1, -1):
+            check_day_boundary_date(out, day, delta)
+    check_range_grid(out)
+
+
 def oracle(ctx, widened):
     setup()
     out = Outcome()
@@ -634,6 +879,7 @@ def oracle(ctx, widened):
         scale = rng.choice(UNIFORM)
         check_range(out, rng, scale, gen_label(rng, scale))
     check_policy(out, rng)
+    check_boundaries(out, rng, big)
     _, _, first, last = tables()
     days = range(first, last + 1) if big else [rng.randint(first, last) for _ in range(400)] + [first, last]
     check_tables(out, days)
@@ -647,7 +893,13 @@ def replay(f):
     i = f["input"]
     import random
     rng = random.Random(0)
-    if "to" in i:
+    if "lookup_num" in i:
+        check_lookup(out, i["lookup_num"])
+    elif "leap_day" in i:
+        check_leap_day_date(out, i["leap_day"], i["delta_us"])
+    elif "boundary_day" in i:
+        check_day_boundary_date(out, i["boundary_day"], i["delta_us"])
+    elif "to" in i:
         check_pair(out, rng, i["scale"], i["to"], i["clock_us"])
     elif "step_us" in i:
         check_range(out, rng, i["scale"], i["clock_us"], replay=(i["step_us"], i["dur_us"], i["inclusive"], i["stop_as_timedelta"]))
@@ -722,6 +974,12 @@ def eop_day_scale(tree):
     raise RuntimeError("Date.__init__: the second EOP lookup by UTC day is not there")
 
 
+def _lean_str(line):
+    if any(ord(c) < 32 or ord(c) > 126 or c in "'\\" for c in line):
+        raise RuntimeError("unexpected character in an IERS file line")
+    return "[" + ",".join("'%s'" % c for c in line) + "]"
+
+
 def extract(ctx):
     from harness import py2lean, instantiate
     from harness.props import C20
@@ -772,6 +1030,8 @@ def extract(ctx):
            "namespace BeyondVerif.Generated",
            "/-- `tai-utc.dat` in file order: (MJD of the entry, constant term of TAI−UTC in ticks of 1e-7 s) -/",
            "def leapTable : List (Int × Int) := [" + ", ".join(f"({m}, {v})" for m, v in leap) + "]",
+           "/-- the text of `tai-utc.dat`, line by line (`Props/C03.lean leap_table_is_parsed_file`: `leapTable` is its parse by Model/EopFile.lean) -/",
+           "def taiUtcText : List (List Char) := [" + ",\n  ".join(_lean_str(l) for l in open(os.path.join(pole_dir(), "tai-utc.dat"), encoding="ascii").read().splitlines()) + "]",
            f"def finalsFirst : Int := {first}", f"def finalsLast : Int := {last}",
            "/-- UT1−UTC per day from `finals.all`, ticks + 10^8 in 9 decimal digits per day (999999999 = no record) -/",
            "def ut1Raw : List String := [" + ",\n  ".join('"' + c + '"' for c in chunks) + "]",
@@ -822,6 +1082,11 @@ def same_reply(real, model, exact):
         return min(u, DAY_US - u) <= 3
     if near(a) or near(b):
         tol = [max(tol[0], 5000), tol[1], max(tol[2], 50000), tol[3], 10**5, tol[5]] if a[1] == "UT1" else tol[:4] + [10**5] + tol[5:]
+        # ... and when that midnight is the date of an entry of tai-utc.dat, the neighbouring record of a UT1 / TDB date also
+        # differs by the leap second, in both columns (UT1-UTC jumps with UTC)
+        entries = {m for m, _ in tables()[0]}
+        if not exact and any(((int(t[2]) - int(t[5]) // TICK + DAY_US // 2) // DAY_US) in entries for t in (a, b) if near(t)):
+            tol[3], tol[4] = 10**7, 10**7 + 10**5
     return all(abs(int(x) - int(y)) <= t for x, y, t in zip(a[2:], b[2:], tol))
 
 
@@ -833,6 +1098,156 @@ def gen_any_label(rng, scale):
         if ld > tables()[2] + 2:
             return ld * DAY_US + rng.randint(-90 * 10**6, 90 * 10**6)
     return gen_label(rng, scale)
+
+
+def _enc(line):
+    return line.replace(" ", "~")
+
+
+def _model_tai(lines):
+    """TaiUtc.data according to Model/EopFile.lean, or 'crash'"""
+    tab = []
+    for r in core.Driver(ID).run(["d3ptai " + _enc(l) for l in lines]):
+        t = r.split()
+        if t[0] == "crash":
+            return "crash"
+        if t[0] == "ok":
+            tab.append((int(t[1]), int(t[2])))
+    return tab
+
+
+def _model_fin(lines):
+    """{mjd: UT1-UTC ticks} of a finals reader according to Model/EopFile.lean (stops at the first line without
+    x / y / UT1-UTC), or 'crash'"""
+    tab = {}
+    for r in core.Driver(ID).run(["d3pfin " + _enc(l) for l in lines]):
+        t = r.split()
+        if t[0] == "crash":
+            return "crash"
+        if t[0] == "stop":
+            break
+        tab[int(t[1])] = int(t[2])
+    return tab
+
+
+def _real_reader(cls, lines, tmpdir, name):
+    path = os.path.join(tmpdir, name)
+    with open(path, "w", encoding="ascii", newline="\n") as f:
+        f.write("\n".join(lines) + "\n")
+    try:
+        r = cls(path)
+    except (ValueError, IndexError):
+        return "crash"
+    except KeyError:
+        return "keyerror"      # dX / LOD fallback to the previous day on the first line: not a time-scale column
+    if isinstance(r.data, list):
+        return [(m, round(v * 1e7)) for m, v in r.data]
+    bad = [m for m, rec in r.data.items() if rec["mjd"] != m]
+    return {m: round(rec["ut1_utc"] * 1e7) for m, rec in r.data.items()} if not bad else {"mjd-field-differs": bad[:3]}
+
+
+def readers_correspondence(ctx, out):
+    """the real IERS readers (`TaiUtc`, `Finals`, `Finals2000A`) and the column parsers of Model/EopFile.lean on the same file
+    text: every line of the three files of tests/data/pole, then perturbed copies (blank / shifted / truncated columns, empty
+    lines, a bad MJD) written to a scratch folder — the `break` and the crash branches of the readers included. The regenerated
+    tables the theorems use (Generated/EopTable.lean) are compared with the Lean parse of the text as well."""
+    import tempfile
+    from beyond.dates.eop import TaiUtc, Finals, Finals2000A
+    rng = ctx.rng
+    text = {fn: open(os.path.join(pole_dir(), fn), encoding="ascii").read().splitlines() for fn in ("tai-utc.dat", "finals.all", "finals2000A.all")}
+    leap, ut1, first, last = tables()
+    with tempfile.TemporaryDirectory() as tmp:
+        m_tai = _model_tai(text["tai-utc.dat"])
+        r_tai = _real_reader(TaiUtc, text["tai-utc.dat"], tmp, "tai-utc.dat")
+        out.count(key="reader-tai-utc", kind="reader-file", file="tai-utc.dat", lines=len(text["tai-utc.dat"]))
+        if r_tai != m_tai:
+            diff = [(a, b_) for a, b_ in zip(r_tai, m_tai) if a != b_][:3] if isinstance(r_tai, list) and isinstance(m_tai, list) else None
+            out.fail("reader-tai-utc", "TaiUtc reader and Model/EopFile.lean differ on tests/data/pole/tai-utc.dat", "tai-utc.dat", observed=diff or str(r_tai)[:200], expected=str(m_tai)[:200])
+        gen = []
+        for i in range(len(leap) + 2):
+            r = core.Driver(ID).run([f"d3gleap {i}"])[0].split()
+            if r[0] != "ok":
+                break
+            gen.append((int(r[1]), int(r[2])))
+        if m_tai != gen or gen != leap:
+            out.fail("generated-leap-table", "Generated/EopTable.lean leapTable is not the Lean parse of tai-utc.dat", "tai-utc.dat", observed=str(gen)[:200], expected=str(m_tai)[:200])
+        m_fin = {}
+        for fn, cls in (("finals.all", Finals), ("finals2000A.all", Finals2000A)):
+            m_fin[fn] = _model_fin(text[fn])
+            r_fin = _real_reader(cls, text[fn], tmp, fn)
+            out.count(key="reader-" + fn, kind="reader-file", file=fn, lines=len(text[fn]))
+            if r_fin != m_fin[fn]:
+                if isinstance(r_fin, dict) and isinstance(m_fin[fn], dict):
+                    keys = sorted(set(r_fin) ^ set(m_fin[fn]))[:3] or [k for k in sorted(r_fin) if r_fin[k] != m_fin[fn][k]][:3]
+                    what = {k: (r_fin.get(k), m_fin[fn].get(k)) for k in keys}
+                else:
+                    what = (str(r_fin)[:100], str(m_fin[fn])[:100])
+                out.fail("reader-" + fn, f"{cls.__name__} reader and Model/EopFile.lean differ on tests/data/pole/{fn}", fn, observed=what)
+        if all(isinstance(m_fin[fn], dict) for fn in m_fin):
+            merged = {d: m_fin["finals2000A.all"].get(d) for d in m_fin["finals.all"]}
+            if merged != ut1:
+                out.fail("generated-finals-table", "Generated/EopTable.lean ut1Raw is not the Lean parse of the finals files (days of finals, values of finals2000A)", "finals",
+                         observed=len(merged), expected=len(ut1))
+        # perturbed text
+        for k in range(ctx.n(120, 600)):
+            if k % 3 == 0:
+                lines = list(text["tai-utc.dat"][rng.randint(0, 30):][:rng.randint(1, 12)])
+                cls, name = TaiUtc, "tai-utc.dat"
+                i = rng.randrange(len(lines))
+                how = rng.choice(["empty-line", "blank-line", "drop-field", "extra-blanks", "bad-jd", "bad-value", "none", "jd-whole", "value-int"])
+                f = lines[i].split()
+                if how == "empty-line":
+                    lines.insert(i, "")
+                elif how == "blank-line":
+                    lines.insert(i, "   ")
+                elif how == "drop-field":
+                    lines[i] = " ".join(f[:rng.randint(3, 6)])
+                elif how == "extra-blanks":
+                    lines[i] = "   " + "    ".join(f) + "  "
+                elif how == "bad-jd":
+                    lines[i] = lines[i].replace(f[4], f[4].replace(".", ":"))
+                elif how == "bad-value":
+                    lines[i] = " ".join(f[:6] + ["1.2.3"] + f[7:])
+                elif how == "jd-whole":
+                    lines[i] = " ".join(f[:4] + [f[4].split(".")[0] + rng.choice([".0", ".5", ".9", ""])] + f[5:])
+                elif how == "value-int":
+                    lines[i] = " ".join(f[:6] + [rng.choice(["37", "37.", "-1.5", "+2.25", ".5"])] + f[7:])
+                model = _model_tai(lines)
+            else:
+                fn = rng.choice(["finals.all", "finals2000A.all"])
+                cls, name = (Finals, fn) if fn == "finals.all" else (Finals2000A, fn)
+                at = rng.choice([0, len(text[fn]) - 40, rng.randrange(len(text[fn]) - 40), max(0, len(m_fin[fn]) - 5 if isinstance(m_fin[fn], dict) else 0)])
+                lines = list(text[fn][at:at + rng.randint(2, 25)])
+                i = rng.randrange(1, len(lines))
+                how = rng.choice(["blank-ut1", "blank-x", "blank-y", "truncate", "bad-mjd", "shift", "none", "ut1-sign", "dup-day", "mjd-frac"])
+                ln = lines[i]
+                if how == "blank-ut1":
+                    lines[i] = ln[:58] + " " * 10 + ln[68:]
+                elif how == "blank-x":
+                    lines[i] = ln[:18] + " " * 9 + ln[27:]
+                elif how == "blank-y":
+                    lines[i] = ln[:37] + " " * 9 + ln[46:]
+                elif how == "truncate":
+                    lines[i] = ln[:rng.choice([16, 30, 50, 60, 66, 70])]
+                elif how == "bad-mjd":
+                    lines[i] = ln[:7] + " 4x684.00"[:8] + ln[15:]
+                elif how == "shift":
+                    lines[i] = ln[:57] + ln[58:]
+                elif how == "ut1-sign":
+                    lines[i] = ln[:58] + ("%10s" % rng.choice(["-0.1234567", "+0.7654321", " .5000000", "0.1", "-.25"])) + ln[68:]
+                elif how == "dup-day":
+                    lines.insert(i, lines[i - 1][:58] + ("%10.7f" % rng.uniform(-0.9, 0.9)) + lines[i - 1][68:])
+                elif how == "mjd-frac":
+                    lines[i] = ln[:7] + ("%8.2f" % (float(ln[7:15]) + rng.choice([0.25, 0.5, 0.99]))) + ln[15:]
+                model = _model_fin(lines)
+            real = _real_reader(cls, lines, tmp, name)
+            out.count(key=("reader", name, how, tuple(lines)), kind="reader-perturbed", file=name, how=how,
+                      reply=(real if isinstance(real, str) else "table"))
+            if real == "keyerror":
+                continue
+            if real != model:
+                out.fail(f"reader-perturbed:{name}:{how}", f"{cls.__name__} reader and Model/EopFile.lean differ on a perturbed file", {"file": name, "how": how, "lines": lines},
+                         observed=str(real)[:300], expected=str(model)[:300])
 
 
 def correspondence(ctx):
@@ -886,6 +1301,33 @@ def correspondence(ctx):
             cases.append((f"d3add pass {sc} {us} {t}", (lambda sc=sc, us=us, t=t: real_try(lambda: mkdate(us, sc) + timedelta(microseconds=t))), not nonuni(sc), "add"))
             if rng.random() < 0.3:
                 cases.append((f"d3add pass {sc} {us} {-t}", (lambda sc=sc, us=us, t=t: real_try(lambda: mkdate(us, sc) - timedelta(microseconds=t))), not nonuni(sc), "sub-timedelta"))
+    # the same operations AT the tables' abscissae: every leap-second day inside the finals files, exactly 00:00:00 of the
+    # UTC reading, +-1 us, +-1 s (UTC dates), +-5 us, +-1 s (other scales: a double decides the UTC day within 3 us), and the
+    # label's own midnight of that day; every constructor form
+    for ld in leap_days():
+        if not (first + 2 <= ld <= last - 2):
+            continue
+        for sc in SCALES:
+            deltas = (-10**6, -1, 0, 1, 10**6) if sc == "UTC" else (-10**6, -5, 5, 10**6)
+            labels = [ld * DAY_US + approx_minus_utc(sc, ld if dl >= 0 else ld - 1) + dl for dl in deltas]
+            if sc not in ("UTC", "UT1"):
+                labels += [ld * DAY_US + dl for dl in (-1, 0, 1)]
+            for us in labels:
+                cases.append((f"d3dt pass {sc} {us}", (lambda sc=sc, us=us: real_try(lambda: mkdate(us, sc))), not nonuni(sc), "ctor-datetime-at-leap-entry"))
+                # a UT1 / TDB date whose UTC reading is within a fraction of a microsecond of midnight gets either neighbouring
+                # record (the day is decided by a double, NOT_COVERED): from exactly 00:00:00 UTC go to the uniform scales only
+                sb = rng.choice(UNIFORM if sc == "UTC" and min(us % DAY_US, DAY_US - us % DAY_US) <= 1 else SCALES)
+                cases.append((f"d3chg pass {sc} {us} {sb}", (lambda sc=sc, sb=sb, us=us: real_try(lambda: mkdate(us, sc).change_scale(sb))), not nonuni(sc, sb), "change-scale-at-leap-entry"))
+                t = rng.choice([1, -1, 10**6, -10**6, 3600 * 10**6, gen_td(rng)])
+                cases.append((f"d3add pass {sc} {us - t} {t}", (lambda sc=sc, us=us, t=t: real_try(lambda: mkdate(us - t, sc) + timedelta(microseconds=t))), not nonuni(sc), "add-onto-leap-entry"))
+        for pol in ("pass", "error"):
+            def th(pol=pol, ld=ld):
+                set_policy(pol)
+                try:
+                    return real_try(lambda: Date(ld))
+                finally:
+                    set_policy("pass")
+            cases.append((f"d3mk {pol} UTC {ld} 0", th, True, "ctor-int-mjd-at-leap-entry"))
     lines = [c[0] for c in cases]
     model = core.Driver(ID).run(lines)
     for (line, th, exact, kind), m in zip(cases, model):
@@ -981,8 +1423,77 @@ def correspondence(ctx):
         log.removeHandler(grab)
         log.setLevel(old_level)
 
+    # the two lookups of SimpleEopDatabase separately and EopDb.get, AT the tables' own abscissae (every entry of tai-utc.dat
+    # exactly, +-1 us, +-1 s, +-half a day; first / last entry; the day before the first; first / last day of the finals
+    # files, holes; day boundaries — all of them in the thorough tier)
+    db = EopDb.db()
+    nums = [n for n in table_abscissae(rng, all_days=ctx.thorough, n_days=200) if math.floor(n / DAY_T) == n // DAY_T]
+    pols = [rng.choice(["pass", "warning", "error"]) for _ in nums]
+    m_tai = core.Driver(ID).run([f"d3tai {n}" for n in nums])
+    m_fin = core.Driver(ID).run([f"d3fin {n}" for n in nums])
+    m_get = core.Driver(ID).run([f"d3eop {p} {n}" for p, n in zip(pols, nums)])
+    m_lnx = core.Driver(ID).run([f"d3lnx {n}" for n in nums])
+    from beyond.dates.eop import TaiUtc
+    reader = TaiUtc(os.path.join(pole_dir(), "tai-utc.dat"))
+    for n, mt, ml in zip(nums, m_tai, m_lnx):
+        mjd = n / DAY_T
+        pos = lookup_position(n)
+        v = reader[mjd]
+        real = "err key" if v is None else "ok %d" % round(v * 1e7)      # TaiUtc.__getitem__ returns None where tai_utc raises
+        past, fut = reader.get_last_next(mjd)
+        real2 = "ok " + " ".join("none none" if e[0] is None else "%d %d" % (e[0], round(e[1] * 1e7)) for e in (past, fut))
+        out.count(key=("lnx", n), kind="taiutc-reader-lookup", position=pos)
+        if real != mt:
+            out.fail("taiutc-getitem:" + pos, "TaiUtc.__getitem__ differs from taiUtcAt on the regenerated table", f"d3tai {n}", observed=real, expected=mt)
+        if real2 != ml:
+            out.fail("taiutc-last-next:" + pos, "TaiUtc.get_last_next differs from the model", f"d3lnx {n}", observed=real2, expected=ml)
+    log.addHandler(grab)
+    log.setLevel(logging.WARNING)
+    try:
+        for n, pol, mt, mf, mg in zip(nums, pols, m_tai, m_fin, m_get):
+            mjd = n / DAY_T
+            pos = lookup_position(n)
+            try:
+                real = "ok %d" % round(db.tai_utc(mjd) * 1e7)
+            except KeyError:
+                real = "err key"
+            out.count(key=("tai", n), kind="tai-utc-lookup", position=pos, reply=real.split()[0])
+            if real != mt:
+                out.fail("tai-utc-lookup:" + pos, "SimpleEopDatabase.tai_utc differs from taiUtcAt on the regenerated table", f"d3tai {n}", observed=real, expected=mt)
+            try:
+                real = "ok %d" % round(db.finals(mjd)["ut1_utc"] * 1e7)
+            except KeyError:
+                real = "err key"
+            out.count(key=("fin", n), kind="finals-lookup", position=pos, reply=real.split()[0])
+            if real != mf:
+                out.fail("finals-lookup:" + pos, "SimpleEopDatabase.finals differs from the day lookup of the model", f"d3fin {n}", observed=real, expected=mf)
+            set_policy(pol)
+            grab.records.clear()
+            try:
+                e = EopDb.get(mjd)
+                zero = e.tai_utc == 0 and e.ut1_utc == 0 and e.x == 0
+                if grab.records:
+                    real = "zero-warned" if zero else "found-but-warned"
+                elif zero and not (first <= n // DAY_T <= last and leap_at(n // DAY_T) is not None):
+                    real = "zero-silent"
+                else:
+                    real = "found %d %d" % (round(e.tai_utc * 1e7), round(e.ut1_utc * 1e7))
+            except Exception:
+                real = "raised"
+            out.count(key=("eopb", pol, n), kind="eop-get-at-abscissa", position=pos, reply=real.split()[0])
+            if real != mg:
+                out.fail("eop-get:" + pos, "EopDb.get differs from the model (day lookup / policy) at a table abscissa", f"d3eop {pol} {n}", observed=real, expected=mg)
+    finally:
+        set_policy("pass")
+        log.removeHandler(grab)
+        log.setLevel(old_level)
+
+    readers_correspondence(ctx, out)
+
     # DateRange vs the model on instants
     rng_cases = []
+    for sc, us, step, dur, incl, _ in range_grid():
+        rng_cases.append((sc, us, dur, step, incl, [us - 1, us, us + 1, us + dur - 1, us + dur, us + dur + 1, us + dur // 2]))
     for _ in range(300 * N):
         sc = rng.choice(UNIFORM)
         us = gen_label(rng, sc)
